@@ -423,12 +423,20 @@ func checkResolved(prop string, m *Model, v *Verdict) {
 					if l2, only2 := m.OnlyReloads(n1.T, deadline); deadline > m.P.Horizon-time.Second || !only2 || l2 != last || m.FaultIn(k.Receiver, k.Integ, e-flushTimeout(r.GroupInterval)-c01Slack, deadline) {
 						continue
 					}
-					if !m.Throughout(e+time.Millisecond, deadline, cal, func(t Dur) bool { return !m.Firing(lk, t) && !m.Suppressed(ls, t) }) {
-						continue
-					}
 					m.H.Probe("resolution-owed-across-reload")
 				}
-				if c > e && !m.Throughout(e+B, deadline, cal, func(t Dur) bool { return !m.Firing(lk, t) && !m.Suppressed(ls, t) }) {
+				quietAt := func(t Dur) bool {
+					if m.Firing(lk, t) || m.Suppressed(ls, t) {
+						return false
+					}
+					if cal {
+						if muted, _ := m.TimeMuted(r, t); muted {
+							return false
+						}
+					}
+					return true
+				}
+				if c > e && !m.Throughout(e+B, deadline, cal, quietAt) {
 					continue
 				}
 				// every integration of the receiver must have accepted n1's flush too, or the
